@@ -150,6 +150,75 @@ def replay_hooks():
     return ("hook replay catalogue", False, "")
 
 
+def hook_arguments(rep: C.Report) -> None:
+    """Ob6: the hooks see the call's (percent-decoded) name and the FINAL argument map, and their results are used as stated.
+    AST facts on expand_recurse: template_fn(<f(name)>, M) and post_template_fn(<f(name)>, M, T) where M is the map the
+    argument loop of the same call fills (`M[k] = ...`) and T is the variable holding the default expansion; the value
+    post_template_fn returns replaces T only when it is not None.  If a fact fails, recording hooks are replayed."""
+    ob = rep.add(C.Ob("Ob6 template_fn / post_template_fn receive the call's name and final argument map; a non-None post_template_fn result replaces the expansion", "AST facts + replay", ["core.py:Wtp.expand.expand_recurse (hook call sites)"], "both hook call sites; replay: 5 calls with positional, named, duplicate and nested arguments"))
+    try:
+        tree = ast.parse(open(os.path.join(C.SRC, "core.py")).read())
+        fns = [f for q, f in AP.functions(tree) if q[-1] == "expand_recurse"]
+        if len(fns) != 1:
+            ob.verdict, ob.detail = C.NOT_ENCODABLE, "expand_recurse not found"
+            return
+        fn = fns[0]
+        maps = set()
+        for lp in ast.walk(fn):
+            if isinstance(lp, ast.For) and "args[1:]" in ast.unparse(lp.iter):
+                for st in ast.walk(lp):
+                    if isinstance(st, ast.Assign) and isinstance(st.targets[0], ast.Subscript) and isinstance(st.targets[0].value, ast.Name):
+                        maps.add(st.targets[0].value.id)
+        problems = []
+        tf = [c for c in ast.walk(fn) if _name_call(c, {"template_fn"})]
+        ptf = [c for c in ast.walk(fn) if _name_call(c, {"post_template_fn"})]
+        for c in tf:
+            if not (len(c.args) == 2 and "name" in ast.unparse(c.args[0]) and isinstance(c.args[1], ast.Name) and c.args[1].id in maps):
+                problems.append(f"template_fn call at core.py:{c.lineno} is not (name, argument map)")
+        for c in ptf:
+            if not (len(c.args) == 3 and "name" in ast.unparse(c.args[0]) and isinstance(c.args[1], ast.Name) and c.args[1].id in maps and isinstance(c.args[2], ast.Name)):
+                problems.append(f"post_template_fn call at core.py:{c.lineno} is not (name, argument map, expansion)")
+        if not tf or not ptf:
+            problems.append("hook call sites not found")
+        ob.conditions = ob.queries = ob.paths = len(tf) + len(ptf)
+        ob.samples.append({"argument_maps": sorted(maps), "template_fn_calls": len(tf), "post_template_fn_calls": len(ptf), "problems": problems})
+        if not problems:
+            ob.verdict = C.DISCHARGED
+            ob.confirmed_conditions = ob.conditions
+            return
+        from wikitextprocessor import Wtp
+
+        w = Wtp(quiet=True, quiet_output=True)
+        w.add_page("Template:t", 10, "T[{{{1|}}}{{{k|}}}]")
+        w.add_page("Template:u", 10, "U")
+        for doc, want_calls, want_out in (
+            ("{{t|a|k=b}}", [("t", {1: "a", "k": "b"})], "<T[ab]>"),
+            ("{{t|a|1=c}}", [("t", {1: "c"})], "<T[c]>"),
+            ("{{t| x |k= y }}", [("t", {1: " x ", "k": "y"})], "<T[ x y]>"),
+            ("{{t|{{u}}}}", [("u", {}), ("t", {1: "<U>"})], "<T[<U>]>"),
+            ("{{T%20x}}", [("T x", {})], "[[:Template:T%20x]]"),
+        ):
+            seen, post = [], []
+
+            def tfn(n, a, seen=seen):
+                seen.append((n, dict(a)))
+                return None
+
+            def pfn(n, a, e, post=post):
+                post.append((n, dict(a), e))
+                return "<" + e + ">" if not e.startswith("[[:") else None
+
+            w.start_page("T")
+            out = w.expand(doc, template_fn=tfn, post_template_fn=pfn)
+            if seen != want_calls or out != want_out or [(n, a) for n, a, _ in post] != want_calls:
+                v = rep.violation(f"expand({doc!r}, template_fn=<records, returns None>, post_template_fn=<wraps the expansion in <>>)", f"template_fn saw {seen}, post_template_fn saw {[(n, a) for n, a, _ in post]}, result {out!r}; expected calls {want_calls} and result {want_out!r}", {"doc": doc})
+                ob.verdict = C.VIOLATED if v.known is None else C.KNOWN
+                return
+        ob.detail = f"{problems} but the recording hooks see the right names and maps -> inconclusive"
+    except Exception as e:  # noqa: BLE001
+        ob.detail += f"{type(e).__name__}: {e}"
+
+
 def reemit_roundtrip(rep: C.Report) -> None:
     """Ob5: a call that is not expanded comes back as a call with the same name and arguments at every nesting depth.  The
     expander re-emits such calls through placeholders whose arguments may again hold placeholders, so the final substitution
@@ -216,6 +285,7 @@ def run(rep: C.Report) -> None:
         rep.add(C.Ob("Ob1/Ob2 kernels", "E1 CrossHair", [], "", verdict=C.NOT_ENCODABLE, detail=f"{type(e).__name__}: {e}"))
     hook_paths(rep)
     reemit_roundtrip(rep)
+    hook_arguments(rep)
 
 
 def replay(r: dict) -> int:
